@@ -1443,6 +1443,6 @@ MANIFEST = {
     "note": "Trusted: Lean kernel, the three standard axioms, the hand-written model outside the scripts the correspondence explored, the "
             "harness (own typed state walk; global operator new/delete replaced by malloc/free wrappers so that an absurd allocation throws "
             "std::bad_alloc under ASan), boost::archive framing (enumerated, not modelled). Spaces with equal names are assumed structurally "
-            "equal; names are unique within a space. Known findings: F31, F33; fixed (kept as regressions, a revert is a VIOLATION): F29, F30, F32, F105, F106, F107, F108.",
+            "equal; names are unique within a space. Known finding: F31 only; fixed (kept as regressions, a revert is a VIOLATION; any LeakSanitizer block on a load path is a VIOLATION): F29, F30, F32, F33, F105, F106, F107, F108.",
     "technique": "Lean 4 proof (mutual structural induction over the space tree) + differential correspondence + byte-level fault enumeration",
 }
